@@ -154,14 +154,19 @@ func init() {
 						_, err = pingTag(ctx, cc)
 						return err
 					})
-					served := make(chan struct{})
-					x.Go("host", func() {
-						cb.AcceptAndServe(32, func(o []grpc.ServerOption) *grpc.Server {
-							s := grpc.NewServer(o...)
-							grpctest.RegisterPingPongServer(s, &ppServer{tag: "32"})
-							return s
-						})
-						close(served)
+					// plugin -> host: the host accepts (tracked: it must return, with an error once the
+					// plugin is gone, because announcing the listener needs the broker stream), the plugin dials
+					// (with multiplexing Accept only registers a local listener: it does not need the plugin)
+					run("broker-accept", p["proto"] == "grpc", func() error {
+						ln, err := cb.Accept(32)
+						if err != nil {
+							return err
+						}
+						sv := grpc.NewServer()
+						grpctest.RegisterPingPongServer(sv, &ppServer{tag: "32"})
+						x.Go("host", func() { sv.Serve(ln) })
+						x.OnCleanup(func() { sv.Stop(); ln.Close() })
+						return nil
 					})
 					x.Go(lc.r.dom.Name, func() {
 						cc, err := sb.Dial(32)
@@ -172,7 +177,6 @@ func init() {
 							cc.Close()
 						}
 					})
-					x.Data["served"] = served
 				}
 				_ = rpc.DefaultRPCPath
 			}
